@@ -86,6 +86,33 @@ def run(pid, tier):
         else:
             R.machinery(f"TLC Limits: {b.error}")
         return R.finish()
+    # the engine behind the 25-line limit: its design model-checked (line breaks are conserved through every nesting, the
+    # Function scope holds exactly the lines of the body) and the implementation's scope chain / line counters of the
+    # function-length cases validated against it event by event (EngineTrace.tla)
+    import enginemc
+    import enginetrace
+    enginemc.run_into(R, tier)
+    lines_cases = [rec for rec in exports if rec["case"]["lim"] == "lines"]
+    traces = []
+    for t, rec in enumerate(lines_cases[:: max(1, len(lines_cases) // (150 if tier == "quick" else 1500))], start=1):
+        name, text, _ = normgen.render(rec, sd * 11)
+        tr, _o = enginetrace.record(text, t, name)
+        traces.append(tr)
+    try:
+        verdicts = enginetrace.validate(traces, name="enginetrace-C03")
+        for t, v in sorted(verdicts.items()):
+            R.case(("engine-trace", t))
+            if v["part"] or v["wf"] or v["depth"]:
+                R.soft(f"engine trace of a function-length case: partition / well-formedness / depth clause fails at event "
+                       f"{v['part'] or v['wf'] or v['depth']} (C07's business)")
+            elif v["scope"] or v["lines"]:
+                R.soft(f"engine trace of a function-length case departs from Engine.tla at event {v['scope'] or v['lines']} "
+                       "(scope chain / line counter; model drift unless a boundary case fails too)")
+            else:
+                R.validated()
+        R.cov["engine_traces"] = len(traces)
+    except Exception as e:  # noqa
+        R.machinery(str(e))
     nseeds = 2 if tier == "quick" else 8
     jobs = [dict(rec=rec, seed=sd * 11 + s, idx=i, keep=(i % 97 == 0 and s == 0)) for i, rec in enumerate(exports) for s in range(nseeds)]
     results = driverprops.pool_map(_work, jobs)
